@@ -392,6 +392,25 @@ fn case(t: &mut Tape, st: &mut Stats) -> Verdict {
     Verdict::Pass(if nontrivial { Some(fp(&shown)) } else { None })
 }
 
+/// Known finding: script-implemented commands test their arguments with `if <command> ${arg}` lines, so an argument of
+/// one of the value classes that C09 lists as altered by that wrapper (here: a first argument starting with '=')
+/// is re-read as script text inside the command. The case generator stays outside those classes by construction.
+fn probe_c09_class() -> Option<String> {
+    hz_reset();
+    let out = run_text("r = base64 =set hello\n", sdk_context(), 20_000, None);
+    match out.result {
+        Err(e) => Some(format!("'r = base64 =set hello' ends the run with {:?}", e)),
+        Ok(c) => {
+            let extra: Vec<&String> = c.variables.keys().filter(|k| *k != "r").collect();
+            if extra.is_empty() {
+                None
+            } else {
+                Some(format!("'r = base64 =set hello' left the caller variables {:?}", extra))
+            }
+        }
+    }
+}
+
 pub fn property() -> Property {
     Property {
         id: "C19",
@@ -409,6 +428,6 @@ pub fn property() -> Property {
             case,
             min_classes: &[("wrong-handle-kind", 1000), ("released-handle", 500), ("too-few-arguments", 1000), ("context-function", 2000), ("context-condition", 2000), ("cmd-cp_glob", 1000), ("cmd-array_concat", 1000), ("caller-variable-in-sibling-scope", 3000)],
         }],
-        probes: vec![],
+        probes: vec![Probe { signature: "C19/argument-of-a-C09-value-class", run: probe_c09_class }],
     }
 }
